@@ -21,6 +21,7 @@ func TestRAC_C04(t *testing.T) {
 	}
 	rng := rand.New(rand.NewSource(res.Seed + 404))
 	var cur map[string]interface{}
+	var curReplay func()
 	done := make(chan bool, 1)
 	n := 0
 	go func() {
@@ -75,6 +76,16 @@ func TestRAC_C04(t *testing.T) {
 							}
 							pr := Proof{Targets: ts, Proof: pf}
 							cur = map[string]interface{}{"history": h.String(), "targets": ts, "hashes": shortHashes(hh), "proof_len": plen}
+							curReplay = func() {
+								safely(func() { Verify(Stump{Roots: w.stump.Roots, NumLeaves: w.stump.NumLeaves}, hh, pr) })
+								safely(func() { w.pol.Verify(hh, pr, false) })
+								for _, m := range w.maps {
+									safely(func() { m.Verify(hh, pr, false) })
+									safely(func() { m.VerifyPartialProof(ts, hh, pf, false) })
+								}
+								st := Stump{Roots: cloneHashes(w.stump.Roots), NumLeaves: w.stump.NumLeaves}
+								safely(func() { st.Update(hh, []Hash{{0xAD, 1}}, pr) })
+							}
 							res.seen(fmt.Sprint(cur))
 							call := func(name string, f func()) {
 								res.eval("Verify.rac.total")
@@ -140,9 +151,20 @@ func TestRAC_C04(t *testing.T) {
 			}
 			last = res.Evaluations
 			if stuck >= 3 {
-				res.eval("Verify.rac.returns")
-				res.fail("Verify.rac.returns", cur, "a verification call did not return within 15 s", "every entry point returns in time polynomial in the input size")
-				finished = true
+				// no progress for 15 s: either a call that does not return, or a starved process on a busy machine.
+				// Decide by running the same calls again on their own: a hanging input hangs again.
+				confirm := make(chan bool, 1)
+				if rp := curReplay; rp != nil {
+					go func() { rp(); confirm <- true }()
+				}
+				select {
+				case <-confirm:
+					stuck = 0 // the input returns: the worker was only slow
+				case <-time.After(60 * time.Second):
+					res.eval("Verify.rac.returns")
+					res.fail("Verify.rac.returns", cur, "a verification call did not return within 15 s, and not within 60 s when repeated on its own", "every entry point returns in time polynomial in the input size")
+					finished = true
+				}
 			}
 		}
 	}
